@@ -25,6 +25,7 @@ echo CONFIRMED
 # run checks on /repo with the patch
 cd /repo && git apply $OUT/patch_$K.diff || exit 7
 cd /verif
+export VX_EVIDENCE_DIR=/verif/work/seed_evidence
 for P in $PROPS; do python3 -m vx check $P | grep -E "VIOLATION|UNDECIDED|exit=" | cut -c1-300; done
 git -C /repo checkout -q -- .
 git -C /repo status --short | head -3
